@@ -23,6 +23,8 @@ pub enum Cause {
     KeepAlive,
     Close,
     ForceClose,
+    /// the publish service's `Service::ready()` starts returning an error (servers; a hand-written service)
+    ReadyErr,
 }
 
 #[derive(Clone, Copy, Debug, PartialEq, Eq)]
@@ -128,7 +130,7 @@ fn expected_class(c: Cause) -> &'static str {
     match c {
         Cause::PeerClose | Cause::ReadErr | Cause::WriteErr | Cause::Close | Cause::ForceClose => "Stop:PeerGone",
         Cause::Garbage | Cause::ProtoViolation | Cause::KeepAlive => "Stop:Proto",
-        Cause::HandlerErr | Cause::ProtoErr => "Stop:Error",
+        Cause::HandlerErr | Cause::ProtoErr | Cause::ReadyErr => "Stop:Error",
     }
 }
 
@@ -252,6 +254,7 @@ impl Scenario for Td {
                         self.conn.pgates.open(k, GateOutcome::Err);
                     }
                     Cause::KeepAlive => {}
+                    Cause::ReadyErr => crate::world::fail_readiness(),
                     Cause::Close => {
                         if let Some(s) = self.conn.sink() {
                             s.close();
@@ -399,7 +402,7 @@ impl Scenario for Td {
 
 pub fn configs(tier: Tier) -> Vec<TdCfg> {
     let mut v = Vec::new();
-    let causes = [Cause::PeerClose, Cause::ReadErr, Cause::WriteErr, Cause::Garbage, Cause::ProtoViolation, Cause::HandlerErr, Cause::ProtoErr, Cause::KeepAlive, Cause::Close, Cause::ForceClose];
+    let causes = [Cause::PeerClose, Cause::ReadErr, Cause::WriteErr, Cause::Garbage, Cause::ProtoViolation, Cause::HandlerErr, Cause::ProtoErr, Cause::KeepAlive, Cause::Close, Cause::ForceClose, Cause::ReadyErr];
     for (ver, role) in crate::c05::roles() {
         for base in [Base::Handlers, Base::Streaming, Base::StreamingDetached, Base::Sends, Base::SendsCb, Base::Bytes, Base::Backpressure, Base::OutStream] {
             for cause in causes {
@@ -420,7 +423,13 @@ pub fn configs(tier: Tier) -> Vec<TdCfg> {
                 if matches!(base, Base::Streaming | Base::StreamingDetached) && matches!(cause, Cause::Garbage | Cause::ProtoViolation) {
                     continue;
                 }
+                // readiness of the application's publish service: servers (the service is passed to MqttServer::publish),
+                // inbound bases (seeded change C07_r4 lost the payload sender on exactly this path)
+                if cause == Cause::ReadyErr && (role == Role::Client || !matches!(base, Base::Handlers | Base::Streaming | Base::StreamingDetached | Base::Backpressure)) {
+                    continue;
+                }
                 let mut ep = EpCfg::new(ver, role);
+                ep.ready_gate = cause == Cause::ReadyErr;
                 ep.handler_auto = false;
                 ep.proto_auto = false;
                 ep.min_chunk_size = 2;
@@ -458,7 +467,7 @@ pub fn run(tier: Tier) -> i32 {
         ck.explore::<Td>("teardown", i, c, &ecfg);
     }
     ck.rule = format!(
-        "4 roles x 8 base schedules (the window slot held by a publish sent through the non-blocking API with a send and a ready() future parked behind it; an outbound QoS 1 publish being streamed by the application - header and first chunk written, second chunk owed, another sender parked behind it; write back-pressure active - peer not reading, 16-byte write buffer over its high watermark, a publish handler in flight - with the peer reading again after the fault; the publish/subscribe stream delivered one byte per write for peer close / read error / force-close at every byte offset; two gated publish handlers + gated SUBSCRIBE; streamed PUBLISH half received with the handler blocked in read(); the same (servers) with the payload taken over by a task of its own that is blocked in read_all(); one send awaiting its ack + one parked on the window + one ready() future) x 10 termination causes (peer close, read error, write error, undecodable bytes, protocol-violating packet, publish handler error, protocol handler error, keep-alive expiry, sink.close(), sink.force_close()); the cause is injected before/after every step of the base schedule at quiescence and, with {} deviation(s), between any two task polls; afterwards virtual time advances up to 60 s and gates are never opened; oracle: exactly one Stop of the class the statement assigns to the cause, connection task completed, every send/ready future resolved, blocked reader saw an error or was cancelled (a reader outside the handler: saw an error), a publish sent through the non-blocking API had its callback invoked exactly once with the disconnected flag, handlers cancelled only after the Stop was handled, nothing left executing",
+        "4 roles x 8 base schedules (the window slot held by a publish sent through the non-blocking API with a send and a ready() future parked behind it; an outbound QoS 1 publish being streamed by the application - header and first chunk written, second chunk owed, another sender parked behind it; write back-pressure active - peer not reading, 16-byte write buffer over its high watermark, a publish handler in flight - with the peer reading again after the fault; the publish/subscribe stream delivered one byte per write for peer close / read error / force-close at every byte offset; two gated publish handlers + gated SUBSCRIBE; streamed PUBLISH half received with the handler blocked in read(); the same (servers) with the payload taken over by a task of its own that is blocked in read_all(); one send awaiting its ack + one parked on the window + one ready() future) x 11 termination causes (peer close, read error, write error, undecodable bytes, protocol-violating packet, publish handler error, protocol handler error, keep-alive expiry, sink.close(), sink.force_close(), and - servers, inbound bases - the publish service's Service::ready() starting to fail); the cause is injected before/after every step of the base schedule at quiescence and, with {} deviation(s), between any two task polls; afterwards virtual time advances up to 60 s and gates are never opened; oracle: exactly one Stop of the class the statement assigns to the cause, connection task completed, every send/ready future resolved, blocked reader saw an error or was cancelled (a reader outside the handler: saw an error), a publish sent through the non-blocking API had its callback invoked exactly once with the disconnected flag, handlers cancelled only after the Stop was handled, nothing left executing",
         ecfg.max_dev
     );
     ck.assumptions = vec![
